@@ -73,6 +73,8 @@ def seeded_block():
             note = note[:327] + '...'
         by = '; '.join((m.get('caught_by') or {}).get('quick', []))
         by = by.replace('assert:', '')
+        if m.get('outside_claim'):
+            by = 'missed: outside the claim (see meta.json)'
         if m.get('superseded'):
             by = 'no longer a violation on the repaired tree (see meta.json)'
         out.append('| %s | %s | %s | %s | %s |' % (m['seed'], m['breaks_property'], esc(note), m.get('checks', {}).get('quick', '?'), esc(by)))
